@@ -580,6 +580,28 @@ func Gen(prop, tier string, seed, run uint64) Plan {
 			detachScript = pre[1].Convs[0]
 		}
 	}
+	if useConv && len(p.Converters) > 0 && len(mutOps) > 0 && (prop == "C16" || prop == "C09" || prop == "C13" || prop == "C06" || prop == "C20") && r.IntN(3) == 0 {
+		// the file of a converter disappears from the converter directory and
+		// comes back later (the watcher's closures, delivered at seeded steps), or
+		// it is rewritten (restart); afterwards it is attached to a tag again
+		c := p.Converters[r.IntN(len(p.Converters))]
+		if r.IntN(4) == 0 {
+			at := r.IntN(len(mutOps) + 1)
+			mutOps = append(mutOps[:at], append([]Op{{C: CMut, K: "ConvWrite", Conv: c}}, mutOps[at:]...)...)
+		} else {
+			at := r.IntN(len(mutOps) + 1)
+			mutOps = append(mutOps[:at], append([]Op{{C: CMut, K: "ConvRemove", Conv: c}}, mutOps[at:]...)...)
+			back := at + 1 + r.IntN(len(mutOps)-at)
+			re := []Op{{C: CMut, K: "ConvCreate", Conv: c}}
+			if r.IntN(2) == 0 {
+				re[0].K = "ConvWrite" // a change event for a converter that is not loaded adds it, too
+			}
+			if ex := existing(); len(ex) > 0 && r.IntN(3) != 0 {
+				re = append(re, Op{C: CMut, K: "SetConv", Name: ex[r.IntN(len(ex))], Convs: []string{c}})
+			}
+			mutOps = append(mutOps[:back], append(re, mutOps[back:]...)...)
+		}
+	}
 	if prop == "C12" || prop == "C20" {
 		// settings and endpoints bookkeeping
 		// inserted at seeded positions (the order of the tag operations is kept:
